@@ -809,11 +809,12 @@ func init() {
 	})
 
 	register(&Rule{
-		ID: "C06.R2", Props: []string{"C06"}, Min: 1,
+		ID: "C06.R2", Props: []string{"C06"}, Min: 2,
 		Doc: "the slot scope of a component comes from its own include tag: in the include evaluator the context's SlotScope is assigned from extractSlotContent(thisNode) unconditionally before the component is evaluated (an inherited scope may only be merged into it)",
 		Run: func(p *Prog, c *Ctx) {
 			fn := p.MustFn("(*vuego.Vue).evalInclude")
-			found := false
+			own := map[ssa.Instruction]bool{}
+			var foreign []*ssa.Store
 			eachInstr(fn, func(in ssa.Instruction) {
 				st, ok := in.(*ssa.Store)
 				if !ok {
@@ -823,30 +824,56 @@ func init() {
 				if fv == nil || !fieldIs(fv, "SlotScope") {
 					return
 				}
-				found = true
 				fromOwn := false
 				for _, o := range p.origins(st.Val, OriginOpts{}) {
 					if cl := isCallNamed(o, "vuego.extractSlotContent"); cl != nil {
 						fromOwn = true
 					}
 				}
-				cond := ""
-				for _, g := range guardsOf(st.Block()) {
-					if b, ok := g.If.Cond.(*ssa.BinOp); ok && (isNilConst(b.X) || isNilConst(b.Y)) {
-						other := b.X
-						if isNilConst(b.X) {
-							other = b.Y
-						}
-						if f := loadedField(other); f != nil && fieldIs(f, "SlotScope") {
-							cond = "only when no slot scope was inherited"
-						}
+				if fromOwn {
+					own[st] = true
+				} else {
+					foreign = append(foreign, st)
+				}
+			})
+			if len(own) == 0 {
+				c.fail("evalInclude: SlotScope := extractSlotContent(node)", p.pos(fn.Pos()), "the include evaluator never assigns the slot scope from its include tag")
+				return
+			}
+			// the component is evaluated by the module calls that are handed a context (methods of the
+			// context itself only read it)
+			n := 0
+			for _, site := range callsIn(fn) {
+				cc := site.Common()
+				callee := cc.StaticCallee()
+				if callee == nil || !inModule(callee) || cc.IsInvoke() {
+					continue
+				}
+				takes := false
+				for i, a := range cc.Args {
+					if _, nm := namedType(a.Type()); nm == "VueContext" && !(i == 0 && callee.Signature.Recv() != nil) {
+						takes = true
 					}
 				}
-				c.check(fromOwn && cond == "", "evalInclude: SlotScope := extractSlotContent(node)", p.instrPos(st), "assigned from the include tag's own children on every path",
-					"the component's slot scope is taken from its own include tag "+cond+": a component included from inside another component receives the outer instance's slot content")
-			})
-			if !found {
-				c.fail("evalInclude: SlotScope := extractSlotContent(node)", p.pos(fn.Pos()), "the include evaluator never assigns the slot scope from its include tag")
+				if !takes {
+					continue
+				}
+				n++
+				key := fmt.Sprintf("evalInclude: %s#%d runs in the tag's own slot scope", shortName(callee), n)
+				bad := ""
+				if !mustPassBefore(fn, site, own) {
+					bad = "a path reaches it on which the context's SlotScope was not assigned from extractSlotContent(node)"
+				}
+				for _, st := range foreign {
+					if canFollow(st, site) && !mustPassBetween(st, site, own) {
+						bad = "the SlotScope assigned at " + p.instrPos(st) + " (not the tag's own) is still current"
+					}
+				}
+				c.check(bad == "", key, p.instrPos(site), "every path assigns the slot scope made from the include tag's own children first",
+					"the component is not always evaluated in the slot scope of its own include tag ("+bad+"): a component included from inside another component — or one whose tag supplies nothing — receives the enclosing instance's slot content instead of its fallback")
+			}
+			if n == 0 {
+				c.fail("evalInclude: component evaluation", p.pos(fn.Pos()), "no call of the include evaluator is handed the context: the role of the function changed")
 			}
 		},
 	})
